@@ -126,10 +126,41 @@ def r_claimdestroy(prog, R):
 
 
 def r_reclaim(prog, R):
-    r = R.rule("R-C19-BUFTAG", "compaction re-bases the tag exactly when a tag is set; rollback restores the tagged offset", floor=3, analysis="exact-guard (guard_delta)")
+    r = R.rule("R-C19-BUFTAG", "compaction never drops bytes behind a set tag and re-bases the tag exactly when a tag is set; rollback restores the tagged offset", floor=4, analysis="exact-guard (guard_delta)")
     f = prog.func("ares_buf_reclaim")
     mf = MustFacts(f, track_calls=False)
     adj = [(b, i, el) for b, i, el in f.elements() if el["k"] == "asg" and is_field(el["e"]["l"], "tag_offset", "ares_buf") and el["e"]["op"] == "-="]
+    other = [(b, i, el) for b, i, el in f.elements() if el["k"] == "asg" and is_field(el["e"]["l"], "tag_offset", "ares_buf") and el["e"]["op"] != "-="]
+    # the removed prefix never reaches past the tag: `prefix = offset` only on edges where no tag is set or the tag is not before the offset
+    pdefs = [(b, i, el) for b, i, el in f.elements() if el["k"] == "asg" and el["e"]["op"] == "=" and is_var(strip(el["e"]["l"])) and is_field(el["e"].get("r"), "offset", "ares_buf")]
+    for pb, pi, pel in pdefs:
+        k = "removed prefix stops at the tag"
+        bad = None
+        for pr in pb.preds:
+            pblk = f.blocks[pr]
+            br = f.branch(pblk)
+            okedge = False
+            if br and br[1] != br[2]:
+                pol = (br[1] == pb.id)
+                for c3, p3 in atoms(br[0], pol):
+                    op3, l3, r3 = norm_cmp(c3, p3)
+                    if r3 is None:
+                        continue
+                    if op3 == "==" and is_field(l3, "tag_offset") and "SIZE_MAX" in render(r3):
+                        okedge = True
+                    if op3 == ">=" and is_field(l3, "tag_offset") and is_field(r3, "offset"):
+                        okedge = True
+                    if op3 == "<=" and is_field(l3, "offset") and is_field(r3, "tag_offset"):
+                        okedge = True
+            if not okedge:
+                bad = pblk
+        if bad is not None or not pb.preds:
+            r.viol(k, f.name, f.loc(pel), "ares_buf_reclaim drops everything in front of the read position (%s) on a path on which a tag may be set before it: the bytes between the tag and the read position are lost, tag fetch returns nothing and a rollback lands on the wrong byte" % render(pel["e"]))
+        else:
+            r.ok(k, f.loc(pel))
+    if other and not adj:
+        r.viol("tag rebased by the removed prefix", f.name, f.loc(other[0][2]), "the tag is set with '%s' instead of being moved back by exactly the number of bytes removed" % render(other[0][2]["e"]))
+        return
     if not r.require(len(adj) == 1, "ares_buf_reclaim: tag_offset adjustment not found"):
         return
     b, i, el = adj[0]
